@@ -128,8 +128,30 @@ def run_journey(env, rn, step: int, kind: str, o_cell: str, d_cell: str):
     return n, findings, "never_arrives"
 
 
+def _prime(spec, step: int):
+    """drive across a FAST network that uses the same link ids first, in this very process: anything remembered per
+    link id across road networks (module-level caches) then shows up as 'too_fast' on the network under test, on every
+    run and whatever the order in which shards reach this worker"""
+    if spec[0] == "grid":
+        fast = ("grid", (130,) * 7, (1,) * 7, ())
+    elif spec[0] in ("ring", "deadend"):
+        return
+    else:
+        return
+    rn = build(fast)
+    cfg = make_config(step=step)
+    env = Environment(config=cfg, mechatronics=_mechatronics(), chargers=_chargers(), reporter=CapturingReporter())
+    cells = position_cells(rn, fast)
+    for o, d in ((cells[0], cells[-1]), (cells[-1], cells[0]), (cells[len(cells) // 2], cells[2])):
+        try:
+            run_journey(env, rn, step, "station", o, d)
+        except Exception:
+            pass
+
+
 def _shard(shard) -> Dict[str, Any]:
     spec, step, kind, part, nparts = shard
+    _prime(spec, step)
     rn = build(spec)
     cfg = make_config(step=step)
     env = Environment(config=cfg, mechatronics=_mechatronics(), chargers=_chargers(), reporter=CapturingReporter())
